@@ -81,9 +81,12 @@ def propKV (ident : Str) (orig : Option Str) (v : Val) : List (Str × Val) :=
     (match orig with | some o => [(S "original_identifier", Val.str o)] | none => []) ++ [(S "value", v)]
 
 structure PropOK (ident : Str) (orig : Option Str) (v : Val) : Prop where
-  hid : validIdentTok ident = true
+  hc : checkEdifIdentifier ident = true
   horig : ∀ o, orig = some o → o.all isStringChar = true
   hval : (∃ s, v = .str s ∧ s.all isStringChar = true) ∨ (∃ b, v = .bool b) ∨ (∃ i, v = .int i)
+
+theorem PropOK.hid {ident : Str} {orig : Option Str} {v : Val} (h : PropOK ident orig v) :
+    validIdentTok ident = true := validIdentTok_of_check _ h.hc
 
 def kPROPS : Str := S "EDIF.properties"
 def kPID : Str := S "EDIF.properties.identifier"
